@@ -136,32 +136,7 @@ def check(ctx, rep):
     loops = [e for p in ps for e in p.evs("loop") if e.d[0] == "enter"]
     rep.ob("R-SETTER", "_me_invoke_callbacks iterates the private list", bool(loops) and all(roles.container_of(e.d[1]) == P.CBS for e in loops), "", where_of(inv))
 
-    # ------------------------------------------------------------------- R-ADDCB
-    adc = fut.methods.get("add_done_callback")
-    rep.require(adc is not None, "_Future.add_done_callback not found")
-    ps, it = ctx.paths(adc, fut, depth=0)
-    L = ("attr", ("param", "self"), lockf)
-    kinds = set()
-    for p in ps:
-        if p.status == "raise" :
-            continue
-        tests = [e for e in p.evs("branch") if isinstance(e.d[0], tuple) and e.d[0][0] == "call" and e.d[0][1] == ("attr", ("param", "self"), "done")]
-        apps = [e for e in p.calls() if q.call_name(e) == "append" and q.recv(e) == P.CBS]
-        direct = [e for e in p.calls() if e.d.get("user") and e.d["func"] == ("param", adc.params[1])]
-        rep.require(len(tests) == 1, "add_done_callback: expected one done() test per path")
-        t = tests[0]
-        is_done = t.d[1]
-        kinds.add(is_done)
-        key = "add_done_callback [%s]" % ("done" if is_done else "pending")
-        rep.ob("R-ADDCB", key + ": done() tested under the lock", q.has_lock(t, L), "done() is tested without self._me_lock", where_of(adc, t.node), trace_of(p))
-        if is_done:
-            ok = not apps and len(direct) == 1 and not q.has_lock(direct[0], L) and direct[0].d["args"] == (("param", "self"),)
-            rep.ob("R-ADDCB", key + ": direct call outside the lock", ok, "on a done future the callback must be called exactly once, with the future, without self._me_lock (appended: %d, called: %d, lock held at call: %s)" % (len(apps), len(direct), bool(direct and q.has_lock(direct[0], L))), where_of(adc), trace_of(p))
-        else:
-            same_hold = len(apps) == 1 and q.has_lock(apps[0], L) and roles.held_throughout(p, L, t, apps[0])
-            ok = same_hold and not direct and apps[0].d["args"] == (("param", adc.params[1]),)
-            rep.ob("R-ADDCB", key + ": append in the same critical section", ok, "on a pending future the callback must be appended under the same hold of the lock as the done() test and not called (appended: %d, called: %d)" % (len(apps), len(direct)), where_of(adc), trace_of(p))
-    rep.require(kinds == {True, False}, "add_done_callback: expected a done and a pending path")
+    addcb_rule(ctx, rep)
 
     # -------------------------------------------------------------------- R-CANCEL
     for ci in concrete:
@@ -347,6 +322,41 @@ def check(ctx, rep):
                     key = "%s: job removal is safe against a concurrent cancel()" % m.qualname
                     rep.ob("R-JOBPOP", key, ok, "the job of %s is removed while its future may still be pending, without that future's lock and without an atomic replacement: a cancel() arriving now finds no job ('Cancel called on orphan') [%s]" % (fmt(D), q.path_sig(p)[:120]), where_of(e.fn, e.node), trace_of(p, e.seq))
     rep.count("retry job removals analysed (per root path)", npop, 8)
+
+
+def addcb_rule(ctx, rep):
+    """shared with C01: registering a callback and the future's completion are atomic with respect to each other"""
+    P = roles.proto(ctx)
+    fut = P.fut
+    lockf = P.lock
+    rep.rule("R-ADDCB", "add_done_callback: `not done()` and the append happen under one hold of the future's lock; the direct call fn(self) happens without it, only on the done path")
+    # ------------------------------------------------------------------- R-ADDCB
+    adc = fut.methods.get("add_done_callback")
+    rep.require(adc is not None, "_Future.add_done_callback not found")
+    ps, it = ctx.paths(adc, fut, depth=0)
+    L = ("attr", ("param", "self"), lockf)
+    kinds = set()
+    for p in ps:
+        if p.status == "raise" :
+            continue
+        tests = [e for e in p.evs("branch") if isinstance(e.d[0], tuple) and e.d[0][0] == "call" and e.d[0][1] == ("attr", ("param", "self"), "done")]
+        apps = [e for e in p.calls() if q.call_name(e) == "append" and q.recv(e) == P.CBS]
+        direct = [e for e in p.calls() if e.d.get("user") and e.d["func"] == ("param", adc.params[1])]
+        rep.require(len(tests) == 1, "add_done_callback: expected one done() test per path")
+        t = tests[0]
+        is_done = t.d[1]
+        kinds.add(is_done)
+        key = "add_done_callback [%s]" % ("done" if is_done else "pending")
+        rep.ob("R-ADDCB", key + ": done() tested under the lock", q.has_lock(t, L), "done() is tested without self._me_lock", where_of(adc, t.node), trace_of(p))
+        if is_done:
+            ok = not apps and len(direct) == 1 and not q.has_lock(direct[0], L) and direct[0].d["args"] == (("param", "self"),)
+            rep.ob("R-ADDCB", key + ": direct call outside the lock", ok, "on a done future the callback must be called exactly once, with the future, without self._me_lock (appended: %d, called: %d, lock held at call: %s)" % (len(apps), len(direct), bool(direct and q.has_lock(direct[0], L))), where_of(adc), trace_of(p))
+        else:
+            same_hold = len(apps) == 1 and q.has_lock(apps[0], L) and roles.held_throughout(p, L, t, apps[0])
+            ok = same_hold and not direct and apps[0].d["args"] == (("param", adc.params[1]),)
+            rep.ob("R-ADDCB", key + ": append in the same critical section", ok, "on a pending future the callback must be appended under the same hold of the lock as the done() test and not called (appended: %d, called: %d)" % (len(apps), len(direct)), where_of(adc), trace_of(p))
+    rep.require(kinds == {True, False}, "add_done_callback: expected a done and a pending path")
+
 
 
 def trans_rule(ctx, rep, concrete, inv, lockf):
